@@ -23,7 +23,7 @@ open EPV.Clo
 
 /-! ## closures -/
 
-/-- PARTIAL (the flags are the triggers of F16 `stale`, F05/F05c `scope`, `arity`, F16f `focus`): on **every** tree configuration,
+/-- PARTIAL (the flags are the triggers of F16 `stale`, F05/F05c `scope`, and `arity`): on **every** tree configuration,
 for every program and fuel, a run of the model that raises no trigger flag returns exactly what
 the lexical-closure specification returns.  The full statement `(implEval cfg fuel p).result =
 specEval fuel p` is false when `cfg.share` (see `closure_counterexample`) or `cfg.leak`
@@ -31,11 +31,11 @@ specEval fuel p` is false when `cfg.share` (see `closure_counterexample`) or `cf
 theorem closure_eq_spec_partial (cfg : Cfg) (fuel : Nat) (p : Expr)
     (h : (implEval cfg fuel p).flags = Flags.none) :
     (implEval cfg fuel p).result = specEval fuel p := by
-  have hs := eval_sim cfg fuel p { item := some (.int 1), lex := [], litem := some (.int 1) } []
+  have hs := eval_sim cfg fuel p { item := some (.int 1), lex := [] } []
     { heap := [], slots := [] } h
   simp only [eraseCtx, eraseHeap, List.map_nil, eraseFocus, Option.isSome_some, if_true] at hs
   show Except.map (fun x => x.1.1)
-    (eval cfg fuel p { item := some (.int 1), lex := [], litem := some (.int 1) } []
+    (eval cfg fuel p { item := some (.int 1), lex := [] } []
       { heap := [], slots := [] }).2 = _
   unfold specEval
   rw [hs]
@@ -57,7 +57,7 @@ preserved by every construct). -/
 theorem no_scope_arity_on_reference_tree (fuel : Nat) (p : Expr) :
     (implEval Cfg.fixed fuel p).flags.scope = false ∧ (implEval Cfg.fixed fuel p).flags.arity = false := by
   have h := g_eval Cfg.fixed rfl rfl rfl fuel p
-    { item := some (.int 1), lex := [], litem := some (.int 1) } [] (fun _ => rfl)
+    { item := some (.int 1), lex := [] } [] (fun _ => rfl)
     { heap := [], slots := [] } (fun o ho => by simp at ho)
   exact ⟨h.1, h.2.1⟩
 
@@ -69,28 +69,31 @@ theorem eval_dict_unchanged (fuel : Nat) (e : Expr) (c : ICtx) (D : Env) (st st'
   have := (g_eval Cfg.fixed rfl rfl rfl fuel e c D hD st hh).2.2 r st' h
   exact ⟨this.2, this.1⟩
 
-/-- `closure_eq_spec` — on the reference tree the model equals the lexical-closure specification for
-**every** program and fuel, under the single hypothesis that the run does not evaluate `.`,
-`position()`, `last()` or a focus-capturing reference inside a function body (finding F16f, the
-only remaining trigger; `focus_counterexample` shows it is necessary).  `stale`, `scope`, `arity` are
-proved never to be raised. -/
-theorem closure_eq_spec (fuel : Nat) (p : Expr)
-    (h : (implEval Cfg.fixed fuel p).flags.focus = false) :
+/-- `closure_eq_spec` — on the reference tree (F16, F05, F05c, F16e, F16f … repaired) the model of the
+code **equals** the lexical-closure specification for every program and every fuel, unconditionally:
+function items are closures over the bindings and the focus of the place where they are created, a
+new one per evaluation, and the body of an inline function has no focus.  (`stale`, `scope`, `arity`
+are proved never to be raised: `no_stale_when_repaired`, `no_scope_arity_on_reference_tree`.) -/
+theorem closure_eq_spec (fuel : Nat) (p : Expr) :
     (implEval Cfg.fixed fuel p).result = specEval fuel p := by
   apply closure_eq_spec_partial
   have h₀ := no_stale_when_repaired Cfg.fixed rfl fuel p
   obtain ⟨h₁, h₂⟩ := no_scope_arity_on_reference_tree fuel p
   generalize (implEval Cfg.fixed fuel p).flags = fl at *
   cases fl
-  simp only at h₀ h₁ h₂ h
-  simp [Flags.none, h₀, h₁, h₂, h]
+  simp only at h₀ h₁ h₂
+  simp [Flags.none, h₀, h₁, h₂]
 
-/-- F16f, kernel-checked: `(7,8) ! function(){.}()` — the model (the code) returns `(7,8)`, the
-specification XPDY0002 (the focus is absent in a function body), and the `focus` trigger is raised. -/
-theorem focus_counterexample :
-    let p : Expr := .smap (.par (.cat (.lit 7) (.lit 8))) (.call (.fnE 0 [] .dot) [])
-    implEval Cfg.fixed 20 p = { result := .ok [.int 7, .int 8], flags := { focus := true } } ∧
-    specEval 20 p = .error .XPDY0002 := by decide
+/-- the focus is absent in the body of an inline function (XPath 3.1 §3.1.7), kernel-checked on the
+former witness of F16f: `(7,8) ! function(){.}()` raises XPDY0002 in the model of the repaired code
+and in the specification, while the argument position still sees the focus:
+`(7,8) ! function($x){$x}(.)` = `(7,8)` -/
+theorem focus_absent_in_function_body :
+    implEval Cfg.fixed 20 (.smap (.par (.cat (.lit 7) (.lit 8))) (.call (.fnE 0 [] .dot) [])) =
+      { result := .error .XPDY0002, flags := Flags.none } ∧
+    specEval 20 (.smap (.par (.cat (.lit 7) (.lit 8))) (.call (.fnE 0 [] .dot) [])) = .error .XPDY0002 ∧
+    implEval Cfg.fixed 20 (.smap (.par (.cat (.lit 7) (.lit 8))) (.call (.fnE 0 [1] (.var 1)) [some .dot])) =
+      { result := .ok [.int 7, .int 8], flags := Flags.none } := by decide
 
 /-- the canonical witness of F16: `(for $i in (1,2) return function(){$i}) ! .()` -/
 def witnessF16 : Expr :=
@@ -211,22 +214,21 @@ theorem funcref_captures_focus (cfg : Cfg) (ev : Expr → ICtx → Env → IM (S
       step cfg ev (.named b) c D st =
         (Flags.none, .ok (([.fn st.heap.length], D),
           { st with heap := st.heap ++ [{ tok := none, code := .builtin b, env := none, lex := [], fixed := none,
-                                          fitem := c.item, flitem := c.litem, fpos := c.pos, fsize := c.size }] }))) ∧
+                                          fitem := c.item, fpos := c.pos, fsize := c.size }] }))) ∧
     (∀ (b : Builtin) (a : Nat) (o : FObj) (c' : ICtx) (D' : Env) (st : St),
       st.heap[a]? = some o → o.code = .builtin b → o.fixed = none → b.arity = 0 →
       callFn cfg ev c' D' a [] st =
-        ({ focus := b.focusDep && decide (o.fitem ≠ o.flitem) },
-         (b.apF (o.fitem, o.fpos, o.fsize) []).map fun r => ((r, D'), st))) := by
+        (Flags.none, (b.apF (o.fitem, o.fpos, o.fsize) []).map fun r => ((r, D'), st))) := by
   refine ⟨fun b c D st => rfl, fun b a o c' D' st ho hc hf hb => ?_⟩
-  obtain ⟨tok, code, env, lex, fixed, fi, fli, fp, fs⟩ := o
+  obtain ⟨tok, code, env, lex, fixed, fi, fp, fs, sg⟩ := o
   simp only at hc hf
   subst hc hf
   unfold callFn
   simp only [IM.bind_def, IM.getObj, ho, FObj.nargsOk, FObj.arity, hb, List.length_nil, BEq.rfl,
-    if_true, Option.isSome_none, Bool.false_and, Bool.false_eq_true, if_false, IM.flag, Flags.none_or]
+    if_true, Flags.none_or]
   have hb' : (b.arity == 0) = true := by simp [hb]
   cases Builtin.apF b (fi, fp, fs) [] <;>
-    simp [hb', IM.lift, IM.throw, IM.pure_def, IM.bind_def, IM.flag, Functor.map, Except.map, Flags.or, Flags.none]
+    simp [hb', IM.lift, IM.throw, IM.pure_def, IM.bind_def, Functor.map, Except.map, Flags.or, Flags.none]
 
 /-- test on literals (the seeded change that stored the reference on the `#` token):
 `((5,6,7) ! position#0) ! .()` = `(1,2,3)`, and called in reverse order `reverse((5,6,7) ! data#0) ! .()`
